@@ -282,6 +282,8 @@ pub struct Cfg {
     /// how the payload of a publish is supplied: 0 = byte slice, 1 = a closure that scribbles over the
     /// whole buffer it is given before writing the payload at its start, 2 = `Publication::text`
     pub payload_kinds: Vec<u8>,
+    /// How many of the transport error kinds a faulting read / write / flush may report (1 = always connection reset).
+    pub fault_kinds: usize,
 }
 
 #[derive(Copy, Clone, Debug, PartialEq, Eq)]
@@ -340,6 +342,7 @@ impl Cfg {
             drain_until_dead: false,
             disc_illegal: false,
             payload_kinds: vec![0],
+            fault_kinds: 1,
         }
     }
     pub fn has(&self, p: &str) -> bool {
